@@ -24,7 +24,9 @@ def run(ctx):
             if vlib.report_failure(ctx, facts, {"record": slim, "reason": reason, "seed": ctx.seed, "tier": ctx.tier},
                                    "%s (rule files %s): %s" % (case["id"], case["rule_files"], reason)):
                 bad.add(f["index"])
-    runs = sum(len(r["runs"]) for r in recs)
+    from checks import testrunstage
+    n_tr = testrunstage.run(ctx, "C13")
+    runs = sum(len(r["runs"]) for r in recs) + 4 * n_tr
     ctx.cov["traces_validated_against_impl"] = runs if not bad else runs - sum(len(recs[i - 1]["runs"]) for i in bad)
     ctx.cov["evaluations"] = runs + 4 * len(recs)
     ctx.cov["distinct_nontrivial"] = summ.get("distinct_iteration_orders_observed", 0)
